@@ -70,7 +70,13 @@ func genC11M(t *rapid.T) c11mScenario {
 		case k < 6:
 			sc.Ops = append(sc.Ops, c11mOp{Kind: "expire", Sil: rapid.IntRange(0, created-1).Draw(t, "sil")})
 		case k < 7:
-			sc.Ops = append(sc.Ops, c11mOp{Kind: "log", Key: rapid.IntRange(0, 2).Draw(t, "key"), Firing: rapid.IntRange(0, 3).Draw(t, "firing")})
+			op := c11mOp{Kind: "log", Key: rapid.IntRange(0, 2).Draw(t, "key"), Firing: rapid.IntRange(0, 3).Draw(t, "firing")}
+			if rapid.IntRange(0, 5).Draw(t, "bad") == 0 {
+				// receiver data that cannot be encoded (a string that is not valid UTF-8): Log must fail
+				// without leaving anything behind
+				op.Kind = "log-unencodable"
+			}
+			sc.Ops = append(sc.Ops, op)
 		default:
 			sc.Ops = append(sc.Ops, c11mOp{Kind: "advance", Dt: rapid.SampledFrom([]int{5, 61, 200, 901, 1900}).Draw(t, "dt")})
 		}
@@ -145,6 +151,18 @@ func execC11M(sc c11mScenario) (res pbt.Result) {
 				}
 			case "expire":
 				if err := sil.Expire(ctx, ids[op.Sil%len(ids)]); err == nil {
+					lastChange = now
+				}
+			case "log-unencodable":
+				before, _ := nfl.MarshalBinary()
+				st := nflog.NewStore(nil)
+				st.SetStr("thread", "bad\xffvalue")
+				err := nfl.Log(&nflogpb.Receiver{GroupName: "r", Integration: "webhook", Idx: uint32(op.Key)}, fmt.Sprintf("{}:{g=\"%d\"}", op.Key), []uint64{1}, nil, st, time.Hour)
+				after, _ := nfl.MarshalBinary()
+				if err != nil && !c11mSameRecords(before, after) {
+					res.Add(pbt.V("failed-log-changed-state", "Log returned %v but the notification log changed", err))
+				}
+				if err == nil {
 					lastChange = now
 				}
 			case "log":
